@@ -54,6 +54,12 @@ def cases(draw, max_n):
         "pre_seed": draw(st.integers(0, 99)),
         # re-schedule between two executions: new surface order taken from this order
         "resurface": draw(st.sampled_from([None, None, "dfs", "len", "table"])),
+        # ... or transform the tree between the two executions
+        "between": draw(st.sampled_from([None, None, None, "reconf", "anneal", "sort"])),
+        # astronomically large sizes (counts beyond 2**64; nothing is executed
+        # then) handed over as python ints, numpy integers or a mixture
+        "big": draw(st.sampled_from([0, 0, 0, 16, 22])),
+        "size_type": draw(st.sampled_from(["int", "int", "numpy", "mixed", "mixed_first_int"])),
         "touch_before": draw(st.booleans()),
         "touch_mid": draw(st.booleans()),
     }
@@ -79,9 +85,22 @@ def run_case(spec, sub=None):
     n = len(inputs)
     removed = [(ix, p) for ix, p in spec["removed"]]
     viol = []
+    big = spec.get("big") or 0
+    if big:
+        sizes = {ix: d << big for ix, d in sizes.items()}
+        removed = [(ix, (None if p is None else p)) for ix, p in removed]
+    st_ = spec.get("size_type", "int")
+    given = dict(sizes)
+    if st_ != "int":
+        import numpy as _np
+
+        for j, ix in enumerate(list(given)):
+            as_np = st_ == "numpy" or (st_ == "mixed" and j % 2 == 0) or (st_ == "mixed_first_int" and j > 0)
+            if as_np:
+                given[ix] = _np.int64(given[ix])
 
     ok, tree = guarded(
-        ctg.ContractionTree.from_path, inputs, output, sizes,
+        ctg.ContractionTree.from_path, inputs, output, given,
         path=[tuple(p) for p in spec["path"]],
     )
     if not ok:
@@ -217,7 +236,7 @@ def run_case(spec, sub=None):
         viol.append(f"preprocessed leaves {q['pre']} != definition {want_pre}")
 
     # Oracle B: execution
-    if not viol:
+    if not viol and not big:
         arrays = ref.make_arrays(inputs, sizes, spec["aseed"], "f")
         log = []
         ok, got = guarded(
@@ -253,37 +272,6 @@ def run_case(spec, sub=None):
                         )
                         break
 
-    # Oracle C: the schedule is changed between two executions through the SAME
-    # options (same implementation object, order='surface_order'): what is
-    # produced the second time must follow what the tree reports then
-    if not viol and spec.get("resurface") and n >= 3:
-        arrays = ref.make_arrays(inputs, sizes, spec["aseed"], "f")
-        log = []
-        impl = rec_impl(log)
-        kwc = dict(order="surface_order", prefer_einsum=spec["prefer_einsum"], implementation=impl)
-        ok, got = guarded(tree.contract, arrays, **kwc)
-        if ok:
-            other = make_order({"order": spec["resurface"], "table": spec["table"]})
-            ok, r = guarded(lambda: tree.set_surface_order_from_path(tree.get_ssa_path(order=other)))
-        if ok:
-            del log[:]
-            ok, got = guarded(tree.contract, arrays, **kwc)
-        if not ok:
-            viol.append(f"contract / set_surface_order_from_path raised {got if isinstance(got, str) else r}")
-        else:
-            steps2 = [(p, l, r) for p, l, r in tree.traverse("surface_order")]
-            per_slice = len(want_pre) + (n - 1)
-            rep2 = [tree.get_size(p) for p, _, _ in steps2]
-            for s_ in range(cr.nslices):
-                chunk = log[s_ * per_slice : (s_ + 1) * per_slice]
-                got_sizes = [math.prod(shp) for k_, shp in chunk if k_ != "einsum1"]
-                if got_sizes != rep2:
-                    viol.append(
-                        f"after set_surface_order_from_path: slice {s_} produced intermediate sizes {got_sizes}, "
-                        f"the tree reports {rep2} for traverse('surface_order')"
-                    )
-                    break
-
     # a derived (non-inplace) tree and the tree it was derived from must both
     # keep reporting their own figures
     if not viol:
@@ -305,13 +293,57 @@ def run_case(spec, sub=None):
                         f"after deriving a sliced tree with remove_ind({ix2!r}), the ORIGINAL tree reports {again} (max_size {tree.max_size()}), definition {want}"
                     )
 
+    # Oracle C: the schedule is changed between two executions through the SAME
+    # options (same implementation object, order='surface_order'): what is
+    # produced the second time must follow what the tree reports then
+    if not viol and not big and (spec.get("resurface") or spec.get("between")) and n >= 3:
+        arrays = ref.make_arrays(inputs, sizes, spec["aseed"], "f")
+        log = []
+        impl = rec_impl(log)
+        kwc = dict(order="surface_order", prefer_einsum=spec["prefer_einsum"], implementation=impl)
+        ok, got = guarded(tree.contract, arrays, **kwc)
+        if ok and spec.get("resurface"):
+            other = make_order({"order": spec["resurface"], "table": spec["table"]})
+            ok, r = guarded(lambda: tree.set_surface_order_from_path(tree.get_ssa_path(order=other)))
+        if ok and spec.get("between"):
+            b_ = spec["between"]
+            sd2 = spec.get("pre_seed", 0)
+            if b_ == "reconf":
+                ok, r = guarded(tree.subtree_reconfigure_, subtree_size=3, maxiter=1, select="random", seed=sd2)
+            elif b_ == "anneal":
+                ok, r = guarded(tree.simulated_anneal_, tsteps=1, numiter=2, tstart=5.0, seed=sd2)
+            else:
+                ok, r = guarded(tree.sort_contraction_indices)
+        if ok:
+            del log[:]
+            ok, got = guarded(tree.contract, arrays, **kwc)
+        if not ok:
+            viol.append(f"contract / set_surface_order_from_path raised {got if isinstance(got, str) else r}")
+        else:
+            steps2 = [(p, l, r) for p, l, r in tree.traverse("surface_order")]
+            per_slice = len(want_pre) + (n - 1)
+            rep2 = [tree.get_size(p) for p, _, _ in steps2]
+            for s_ in range(cr.nslices):
+                chunk = log[s_ * per_slice : (s_ + 1) * per_slice]
+                got_sizes = [math.prod(shp) for k_, shp in chunk if k_ != "einsum1"]
+                if got_sizes != rep2:
+                    viol.append(
+                        f"second execution (after {spec.get('resurface') and 'set_surface_order_from_path'} / {spec.get('between')}): slice {s_} produced intermediate sizes {got_sizes}, "
+                        f"the tree reports {rep2} for traverse('surface_order')"
+                    )
+                    break
+
     cls = gen.net_classes(net)
     nontrivial = bool(removed) or bool(cls & {"hyper", "repeat"})
     tags = sorted(cls) + [f"order={spec['order']}", f"removed={len(removed)}"] + (["restored_some"] if back else [])
     if spec.get("pre"):
         tags.append(f"tree_from={spec['pre']}")
-    if spec.get("resurface") and n >= 3:
+    if (spec.get("resurface") or spec.get("between")) and n >= 3 and not big:
         tags.append("rescheduled_between_executions")
+    if big:
+        tags.append(f"counts_beyond_64_bits:{st_}")
+    elif st_ != "int":
+        tags.append(f"sizes_as={st_}")
     if spec.get("touch_before") or spec.get("touch_mid"):
         tags.append("queried_before_final_state")
     if any(p is not None for _, p in removed):
